@@ -136,6 +136,8 @@ pub fn set_ops<S: Src>(s: &mut S) {
     check!(s, b.is_single_card() == (popcount(b) == 1), "C15.set_ops.single");
     check!(s, <u64 as BC64>::is_valid(&b) == (b != 0 && b >> 52 == 0), "C15.set_ops.valid");
     check!(s, b.as_u64() == b, "C15.set_ops.as_u64");
+    // the published masks: the 52 card bits, and everything above them
+    check!(s, <BinaryCard as BC64>::ALL == ALL52 && <BinaryCard as BC64>::OVERFLOW == !ALL52, "C15.set_ops.masks");
 }
 
 /// one-step contract of peel, forall b: u64
